@@ -4,7 +4,6 @@ import (
 	"bytes"
 
 	"github.com/canopy-network/canopy/lib"
-	"github.com/canopy-network/canopy/lib/crypto"
 )
 
 // C16: Merkle proofs of the sparse Merkle tree (store/smt.go).
@@ -12,13 +11,6 @@ import (
 //       bitmasks, arbitrary values): proofs arrive from peers / RPC callers.
 // The in-memory store VerifyProof opens is replaced by the harness map store (zzStore); hashing is
 // the uninterpreted injective function, node marshalling is boxing.
-
-//zz:stub github.com/canopy-network/canopy/store.NewStoreInMemory harness zzNewMemStore
-//zz:stub github.com/canopy-network/canopy/lib.NewDefaultLogger noop
-
-func zzNewMemStore(log lib.LoggerI, configs ...lib.Config) (lib.StoreI, lib.ErrorI) {
-	return &zzStore{}, nil
-}
 
 func zzKeyBytes(name string, max int) []byte {
 	b := zzBytesUpTo(name, max)
@@ -43,42 +35,6 @@ func ZZ_C16_M1_malformed_proof_no_panic() {
 	membership := zzBool("membership")
 	_, _ = s.VerifyProof(k, v, membership, root, proof)
 	zzReach("M1.returned")
-}
-
-// ---------------------------------------------------------------------------------------------
-// Tree level. A real tree is built with the real NewSMT / Commit (set, traverse, rehash) over
-// the map store, with keyBitLength = `keybits` and an uninterpreted injective hash, so the leaf
-// positions of the user keys are arbitrary symbolic bit strings. Stated preconditions (they hold
-// with overwhelming probability at the production key length of 160 bits): the positions of
-// different user keys differ, and none equals the reserved root / minimum / maximum key.
-// ---------------------------------------------------------------------------------------------
-
-func zzUserKey(i int) []byte { return []byte{'k', byte('0' + i)} }
-func zzUserVal(i int) []byte { return []byte{'v', byte('0' + i)} }
-
-func zzPos(s *SMT, k []byte) *key { return newNodeKey(crypto.Hash(k), s.keyBitLength) }
-
-// zzTree: tree holding user keys 0..n-1 (present), with key n reserved as an absent key.
-func zzTree(n int) *SMT {
-	s := NewSMT(RootKey, zzParam("keybits", 4), &zzStore{})
-	var pos []*key
-	for i := 0; i <= n; i++ {
-		p := zzPos(s, zzUserKey(i))
-		zzAssume(s.validateTarget(&node{Key: p}) == nil)
-		for _, q := range pos {
-			zzAssume(!p.equals(q))
-		}
-		pos = append(pos, p)
-	}
-	ops := map[uint64]valueOp{}
-	for i := 0; i < n; i++ {
-		ops[uint64(i)] = valueOp{key: zzUserKey(i), value: zzUserVal(i), op: opSet}
-	}
-	if err := s.Commit(ops); err != nil {
-		zzAssert("tree.commit-succeeds", false)
-		zzStop()
-	}
-	return s
 }
 
 // M3 completeness at tree level: for every present key the honest proof verifies as membership
